@@ -17,8 +17,8 @@ EXPLANATION = ('Each family routine is executed on a symbolic evaluation point a
                'definitions via x=(z+1/z)/2, functional definitions for Dickson); orthogonality is decided with exact moment '
                'functionals applied to the symbolic polynomials.')
 BOUNDS = {'quick': 'jacobi n<=8 (alpha,beta symbolic); one-parameter families n<=14; zernike n<=6 (values), Gram n<=5; '
-                   'Qbfs/Qcon n<=5, Q2d n<=3,|m|<=3',
-          'thorough': 'jacobi n<=12; one-parameter families n<=24; zernike n<=10, Gram n<=7; Qbfs/Qcon n<=8; Q2d n<=5,|m|<=4'}
+                   'Qbfs/Qcon n<=5, Q2d n<=6 for |m|=1, n<=3 for |m| in {2,3}',
+          'thorough': 'jacobi n<=12; one-parameter families n<=24; zernike n<=10, Gram n<=7; Qbfs/Qcon n<=8; Q2d n<=8 for |m|=1, n<=5 for |m|<=4'}
 OUTSIDE = 'orders above the bound; floating-point stability of the recurrences; Q2d normalisation constant is only required to be order-independent'
 NDERIVED = 40
 MAX_PATHS = 8
@@ -46,7 +46,9 @@ def configs(tier):
         out.append({'name': 'qcon-n%d' % n, 'family': 'qcon', 'n': n})
     out.append({'name': 'qbfs-gram', 'family': 'qbfs_gram', 'nmax': 5 if q else 8})
     for m in range(1, (3 if q else 4) + 1):
-        out.append({'name': 'q2d-gram-m%d' % m, 'family': 'q2d_gram', 'm': m, 'nmax': 3 if q else 5})
+        # |m| == 1 has hand-written low orders (n <= 3) before its recurrence starts: the bound must go past them
+        out.append({'name': 'q2d-gram-m%d' % m, 'family': 'q2d_gram', 'm': m, 'nmax': (6 if m == 1 else 3) if q else (8 if m == 1 else 5)})
+    out.append({'name': 'zernike-seq-def', 'family': 'zernike_seq_def', 'nmax': 4 if q else 6})
     for (m, n) in [(0, 0), (1, 0), (0, 1), (2, 3), (3, 1), (4, 4)]:
         out.append({'name': 'xy-%d-%d' % (m, n), 'family': 'xy', 'm': m, 'n': n})
     for (a, b, c) in [(0, 2, 0), (1, 1, 1), (-1, 3, 1), (2, 2, 2), (-2, 2, 2), (0, 4, 0), (3, 3, 3)]:
@@ -64,7 +66,7 @@ def params(cfg):
         return [('alpha', {'gt': -1})]
     if fam in ('dickson1', 'dickson2'):
         return [('alpha', {}), ('u', {'pos': True})]
-    if fam in ('zernike', 'zernike_gram', 'q2d_gram', 'hopkins'):
+    if fam in ('zernike', 'zernike_gram', 'zernike_seq_def', 'q2d_gram', 'hopkins'):
         return [('t', {})]
     return []
 
@@ -199,6 +201,14 @@ def run(cfg, H):
         t = H.asarray([H.param('t')])
         out = P.zernike_nm(n, m, r, t, norm=cfg['norm'])
         H.eq('zernike', out, zernike_def(H, n, m, r, t, cfg['norm']))
+    elif fam == 'zernike_seq_def':
+        nms = [(nn, mm) for nn in range(cfg['nmax'] + 1) for mm in range(-nn, nn + 1, 2)]
+        r = H.rarray('r', (1,))
+        t = H.asarray([H.param('t')])
+        for norm in (True, False):
+            got = P.zernike_nm_seq(nms, r, t, norm=norm)
+            ref = H.np.stack([H.asarray(zernike_def(H, nn, mm, r, t, norm)) for nn, mm in nms])
+            H.eq('zernike_nm_seq == definition (norm=%s)' % norm, got, ref)
     elif fam == 'zernike_gram':
         nms = [(nn, mm) for nn in range(cfg['nmax'] + 1) for mm in range(-nn, nn + 1, 2)]
         for i, (n1, m1) in enumerate(nms):
